@@ -460,7 +460,7 @@ def exhaustive_block(tier, widen=False):
         # old Sequence.get_translation costs ~3 ms per codon: all 15^3 codons for code 1 in the thorough tier only
         if tier == "thorough":
             cases.append(dict(k="degen_codons", id=cid, syms="ACGTRYSWKMBDHVN" if cid == 1 else "ACGTRYNS", block="degenerate-codons"))
-        elif cid in (1, 2, 4, 11, 31):
+        elif cid in (1, 2, 11):
             cases.append(dict(k="degen_codons", id=cid, syms="ACGTRYN" if cid == 1 else "AGTRYN", block="degenerate-codons"))
     # __getitem__: case, U, wrong lengths, non-canonical
     for cid in (IDS if tier == "thorough" else IDS[:4]):
@@ -475,8 +475,9 @@ def exhaustive_block(tier, widen=False):
         for p in itertools.product("ACGT", repeat=n):
             s = "".join(p)
             for v in VS:
-                cases.append(dict(k="allframes", v=v, id=1, s=s, block="short-seqs"))
-    for cid in (2, 11, 4):
+                if v == "new" or tier == "thorough" or n < L or p[0] == "A":   # quick: a quarter of the longest old-object cases
+                    cases.append(dict(k="allframes", v=v, id=1, s=s, block="short-seqs"))
+    for cid in ((2, 11, 4) if tier == "thorough" else (2,)):
         for n in range(4):
             for p in itertools.product("ACGT", repeat=n):
                 s = "".join(p)
@@ -541,8 +542,11 @@ def exhaustive_block(tier, widen=False):
     # complement / rc on every printable symbol, every table
     for v in VS:
         for m in MS:
+            if v == "old":   # never validates: one string with every printable symbol
+                cases.append(dict(k="complement", v=v, m=m, s="".join(chr(o) for o in range(32, 127)), block="symbols"))
             for o in range(32, 127):
-                cases.append(dict(k="complement", v=v, m=m, s=chr(o), block="symbols"))
+                if v == "new" or tier == "thorough":
+                    cases.append(dict(k="complement", v=v, m=m, s=chr(o), block="symbols"))
             for ch in DGA[m]:
                 cases.append(dict(k="rc2", v=v, m=m, s=ch + "A", block="symbols"))
                 cases.append(dict(k="resolve", v=v, m=m, motif=ch, block="symbols"))
@@ -737,6 +741,21 @@ def random_block(rng, n, maxlen):
                 syms = "".join(rng.choice(al[:5]) for _ in range(rng.randint(1, 5)))
                 cases.append(dict(k="what", m=m, motifs=syms, block="random"))
     return cases
+
+
+def spread_slow(cases):
+    """the implementation shards are contiguous slices: distribute the slow cases evenly over them"""
+    slow = [c for c in cases if c["k"] == "degen_codons" or c.get("n", 0) > HEAVY]
+    rest = [c for c in cases if not (c["k"] == "degen_codons" or c.get("n", 0) > HEAVY)]
+    if not slow:
+        return rest
+    step = max(1, len(rest) // len(slow))
+    out = []
+    for i, c in enumerate(rest):
+        if i % step == 0 and slow:
+            out.append(slow.pop())
+        out.append(c)
+    return out + slow
 
 
 # ------------------------------------------------------------------ comparison
@@ -1010,7 +1029,7 @@ def run(tier: str, seed: int) -> int:
     maxlen = 60 if tier == "quick" else 300
     if proof_broken:
         nrand *= 3  # widened search
-    cases = exhaustive_block(tier, widen=proof_broken) + random_block(rng, nrand, maxlen)
+    cases = spread_slow(exhaustive_block(tier, widen=proof_broken) + random_block(rng, nrand, maxlen))
     impl = core.run_impl_sharded("c12_impl.py", cases)
     model = None
     try:
